@@ -214,8 +214,16 @@ def d4_sift_bound(facts, rep):
     read data[E] inside the sift-down loop is dominated by an edge `E < mark` (for a plain index variable: a comparison of
     that variable, or of the variable it was copied from, against mark).  A bound taken from data.size() lets the
     sift-down walk into the unmerged tail and move one of its elements below a smaller parent."""
+    sift_bound(facts, rep, facts.get(CPQ + 'reheap'), 'D4',
+               lambda fn, node: node.get('op') == '[]' and last_member(fn, node.get('obj', -1)) == 'data' and bool(node.get('a')),
+               'data[...]')
+
+
+def sift_bound(facts, rep, fns, clause, is_access, what):
+    """shared by concurrent_priority_queue::reheap (C13) and the flow graph's priority_queue_node::reheap (C15): `is_access(fn,
+    call node)` recognises a read of the element at index node['a'][0]"""
     from engine.rules import expr_key
-    for fn in facts.get(CPQ + 'reheap'):
+    for fn in fns:
         defs = Defs(fn)
 
         def is_mark(x):
@@ -256,7 +264,7 @@ def d4_sift_bound(facts, rep):
         # accesses data[E] inside the loop (they can reach themselves again)
         nacc = 0
         for pos, s, node, d in calls(fn):
-            if node.get('op') != '[]' or last_member(fn, node.get('obj', -1)) != 'data' or not node.get('a'):
+            if not is_access(fn, node):
                 continue
             reached, ex, par = fn.walk(pos)
             if pos not in reached:
@@ -276,9 +284,9 @@ def d4_sift_bound(facts, rep):
                 return ev is not None and lv is not None and (lv == ev or lv in cls.get(ev, ()) or ev in cls.get(lv, ()))
             ok, wit = dominated_by_edges(fn, pos, edges_where(fn, edge_for))
             nacc += 1
-            rep.ob('D4', 'K4', fn, 'the sift-down reads data[...] at line %s only below mark' % node['ln'], ok,
+            rep.ob(clause, 'K4', fn, 'the sift-down reads %s at line %s only below mark' % (what, node['ln']), ok,
                    'the index is not bounded by mark on every path: the sift-down can pick an element of the unmerged tail as a '
                    'child and move it into the heap under a smaller parent; a later try_pop then returns a non-maximal element (' + wit + ')',
                    ln=node['ln'], key_extra='%s' % node['ln'])
         if nacc < 3:
-            raise AnalysisBroken('reheap: only %d data[] reads found inside the sift-down loop' % nacc)
+            raise AnalysisBroken('%s: only %d element reads found inside the sift-down loop' % (fn.p, nacc))
